@@ -190,7 +190,10 @@ impl History {
             file_options.write(true).truncate(true);
         }
 
+        #[cfg_attr(feature = "verif-hooks", allow(unused_mut))]
         let mut file = file_options.create(true).open(history_file_path.as_ref())?;
+        #[cfg(feature = "verif-hooks")]
+        let mut file = crate::verif::AnnouncedFile::new(file, "history");
 
         for item_id in &self.items {
             if let Some(item) = self.id_map.get_mut(item_id) {
